@@ -296,6 +296,15 @@ def run_scenario(sc, seed, index, wl, keep=False):
             # system-call fault seam (sim/simsys): "" = profile only (count calls), else the rules
             env_extra = {"LD_PRELOAD": SIMSYS, "WILD_SIM_SYSFAULT_LOG": syslog,
                          "WILD_SIM_SYSFAULT": sc["sysfault"] or None}
+        if sc.get("sigchld_ign"):
+            # History: wild is started by a process that ignores SIGCHLD (inherited across exec): the
+            # kernel reaps the forked worker by itself and the parent's waitpid() fails with ECHILD.
+            inner = preexec
+
+            def preexec():  # noqa: F811
+                if inner:
+                    inner()
+                signal.signal(signal.SIGCHLD, signal.SIG_IGN)
         r = sim_link(link_argv(sc, inputs, extra), d, plan, tag="run", ctl_dir=ctl, preexec=preexec,
                      env_extra=env_extra)
         check_sim_health(r, f"fs scenario {index} {sc}")
@@ -498,9 +507,11 @@ def run_job(job):
         base["fork"] = (index % 2 == 0)
         base["threads"] = [1, 2, 4][index % 3]
         base["siblings"] = False
-        for f in fault_grid(base["fork"]):
+        for gi, f in enumerate(fault_grid(base["fork"])):
             sc = dict(base, fault=f, strategy=rng.choice(STRATEGIES), pseed=rng.getrandbits(48),
                       prior=rng.choice(["absent", "good", "unrelated"]))
+            if base["fork"] and gi % 3 == index % 3:
+                sc["sigchld_ign"] = True
             scenarios.append(sc)
         for _ in range(job["schedules"]):
             k = rng.choice(CRASH_KINDS)
@@ -628,6 +639,8 @@ def run_job(job):
                 c[f"fault_fired_{fk}"] = c.get(f"fault_fired_{fk}", 0) + 1
             if sc.get("fsize") and "File too large" in r.get("err", ""):
                 c["fault_fired_fsize"] = c.get("fault_fired_fsize", 0) + 1
+            if sc.get("sigchld_ign"):
+                c["history_sigchld_ignored"] = c.get("history_sigchld_ignored", 0) + 1
             c[f"kind_{sc['kind']}"] = c.get(f"kind_{sc['kind']}", 0) + 1
             c[f"prior_{sc['prior']}"] = c.get(f"prior_{sc['prior']}", 0) + 1
             c["fork" if sc["fork"] else "nofork"] = c.get("fork" if sc["fork"] else "nofork", 0) + 1
